@@ -69,6 +69,28 @@ def scenario(h, early=False):
     return {"nodes": [1], "ops": ops}
 
 
+def ack_races_sweep():
+    """an expiry pass over three unacknowledged deliveries is parked inside its first retransmission (the write to a subscriber that does
+    not read blocks); meanwhile another subscriber acknowledges; then the first one reads again.  The pass had collected the acknowledged
+    entry's timeout already: the deliveries behind it must still be retransmitted in this pass, the acknowledged one not."""
+    out = []
+    for q in (1, 2):
+        for stalled in (1, 2, 3):
+            for acker in (1, 2, 3):
+                if acker == stalled:
+                    continue
+                ops = [{"op": "connect", "c": 9, "n": 1, "client": "pub", "ka": 6000}]
+                for c in (1, 2, 3):
+                    ops.append({"op": "connect", "c": c, "n": 1, "client": "s%d" % c, "ka": 6000, "auto": "none"})
+                    ops.append({"op": "sub", "c": c, "id": 1, "fs": [{"f": ["rs", "x"], "q": q}]})
+                ops.append({"op": "pub", "c": 9, "t": ["rs", "x"], "p": "m1", "q": 1, "r": False, "id": 5})
+                ack = {"op": "ackmsg", "c": acker, "p": "m1", "kind": "PUBACK" if q == 1 else "PUBREC"}
+                ops.append({"op": "race", "hold": "write:%d" % stalled, "a": {"op": "sweep", "n": 1, "ms": 3300}, "b": [ack]})
+                ops += [{"op": "sweep", "n": 1, "ms": 6600}, {"op": "sweep", "n": 1, "ms": 9900}, {"op": "quiesce"}]
+                out.append({"nodes": [1], "ops": ops})
+    return out
+
+
 def check(run):
     thorough = run.tier == "thorough"
     run.model_check("MC_Delivery", "MC_Delivery.cfg" if thorough else "MC_Delivery_quick.cfg")
@@ -79,7 +101,9 @@ def check(run):
     if not thorough:
         hs = hs[:: max(1, len(hs) // 260)]
     scns = [scenario(h, early=(i % 2 == 1)) for i, h in enumerate(hs)]
-    run.log("%d response scripts from TLC" % len(scns))
+    nscripts = len(scns)
+    scns += ack_races_sweep()
+    run.log("%d response scripts from TLC, %d sweeps overtaken by an acknowledgement" % (nscripts, len(scns) - nscripts))
     tpath, crashes = brokerlib.execute(run, scns, "c03", shards=12)
     if crashes:
         raise vlib.Inconclusive("broker driver died: %s" % crashes[0][2][-2000:])
